@@ -2,9 +2,10 @@
 the literal pieces the Lean model relies on and writes lean/PW/Gen/Rodrigues.lean:
 
   thresholds (eps expression, 1e-5) and the comparison operators of the three branch tests,
+  the three sign tests of the half-turn branch (which matrix entries are summed, compared how with 0),
   the `_r_x_` skew pattern, the `rrt` pattern, the structure of `r_out = c*I + c1*rrt + s*_r_x_`,
   the Jacobian index patterns (small-angle jac, drrt, d_r_x_, dvardR, dvar2dvar, domegadvar2, snap-branch jac).
-Everything else (scalar coefficient formulas, half-turn fix-ups, dispatch) is hand-modelled and tied by correspondence.
+Everything else (scalar coefficient formulas, the rest of the half-turn fix-ups, dispatch) is hand-modelled and tied by correspondence.
 
 PW/Props/C10.lean proves each generated object equal to what the model uses.  Fails closed: an anchor that is not
 recognised yields an empty / zero object, which makes that theorem false.
@@ -139,6 +140,34 @@ def unparse(n):
     return ast.unparse(n) if n is not None else ""
 
 
+def entry_sum(n, base):
+    """r[i, j] + r[k, l] + ... -> [(i, j), (k, l), ...]; None if n is anything else"""
+    out = []
+    for t in add_chain(n):
+        if isinstance(t, ast.Subscript) and isinstance(t.value, ast.Name) and t.value.id == base \
+                and isinstance(t.slice, ast.Tuple) and len(t.slice.elts) == 2:
+            i, j = const_int(t.slice.elts[0]), const_int(t.slice.elts[1])
+            if i is None or j is None or not (0 <= i < 3 and 0 <= j < 3):
+                return None
+            out.append((i, j))
+        else:
+            return None
+    return out
+
+
+def sign_tests(stmts, base):
+    """all comparisons `<sum of base[i, j]> <op> 0` below the statements, in source order -> [([(i, j)...], op)]"""
+    found = []
+    for st in stmts:
+        for n in ast.walk(st):
+            if isinstance(n, ast.Compare) and len(n.ops) == 1 and const_int(n.comparators[0]) == 0:
+                es = entry_sum(n.left, base)
+                if es:
+                    found.append(((n.lineno, n.col_offset), es, type(n.ops[0]).__name__))
+    found.sort(key=lambda e: e[0])
+    return [(es, op) for _, es, op in found]
+
+
 def generate(repo_root):
     notes = []
     path = os.path.join(repo_root, SRC)
@@ -184,6 +213,12 @@ def generate(repo_root):
     if_c = first_if(if_s.body, lambda t: is_cmp(t, "c")) if if_s else None
     c_rhs = const_int(if_c.test.comparators[0]) if if_c else None
     ops.append(type(if_c.test.ops[0]).__name__ if (if_c and c_rhs == 0) else "?")
+
+    # ---- the sign tests of the half-turn branch (else-branch of `if c > 0` inside `if s < ...`) -----------
+    sign_t = sign_tests(if_c.orelse, "r") if if_c is not None else []
+    if len(sign_t) != 3:
+        notes.append("half-turn sign tests not recognised (%d found)" % len(sign_t))
+        sign_t = []
 
     # ---- forward: patterns ------------------------------------------------------------------------
     else_body = if_theta.orelse if if_theta else empty
@@ -306,6 +341,8 @@ def generate(repo_root):
     L.append("def rodEpsND : Nat × Nat := (%d, %d)" % eps_nd)
     L.append("def rodSinThreshND : Nat × Nat := (%d, %d)" % thr_nd)
     L.append("def rodBranchOps : List String := %s" % lean_list(lean_str(o) for o in ops))
+    L.append("def rodSignTests : List (List (Nat × Nat) × String) := %s" % lean_list(
+        "(%s, %s)" % (lean_list("(%d, %d)" % e for e in es), lean_str(op)) for es, op in sign_t))
     L.append("def rodSkewPattern : List (Int × Nat) := %s" % pairs_int_nat(skew))
     L.append("def rodRrtPattern : List (Nat × Nat) := %s" % pairs_int_nat(rrt))
     L.append("def rodROutTerms : List (String × String) := %s" % str_pairs(terms))
